@@ -204,3 +204,36 @@ func HarnessC03ExtractInto() {
 func c03Extract(c TextMapCarrier) trace.SpanContext {
 	return trace.SpanContextFromContext(TraceContext{}.Extract(context.Background(), c))
 }
+
+// C03.roundtriplong: a tracestate of full-length members (values of 250
+// characters, one arbitrary) survives Inject / Extract unchanged: the
+// round trip does not depend on the header's length
+func HarnessC03RoundTripLong() {
+	long := make([]byte, 250)
+	for i := range long {
+		long[i] = 'v'
+	}
+	c := vndU8()
+	vndAssume(vndAnd(c >= 'a', c <= 'z'))
+	long[vndChoice(3)*100] = c
+	ts := trace.TraceState{}
+	var err error
+	for _, k := range []string{"a", "b", "c"} {
+		ts, err = ts.Insert(k, string(long))
+		vndAssert(err == nil, "legal-member-accepted")
+	}
+	sc := trace.NewSpanContext(trace.SpanContextConfig{TraceID: trace.TraceID{1}, SpanID: trace.SpanID{2}, TraceFlags: trace.FlagsSampled, TraceState: ts})
+	carrier := MapCarrier{}
+	TraceContext{}.Inject(trace.ContextWithSpanContext(context.Background(), sc), carrier)
+	got := trace.SpanContextFromContext(TraceContext{}.Extract(context.Background(), carrier))
+	vndReach("roundtrip")
+	vndAssert(got.IsValid() && got.TraceID() == sc.TraceID() && got.SpanID() == sc.SpanID() && got.IsSampled(), "roundtrip-same-ids-and-flag")
+	vndAssert(got.TraceState().Len() == 3, "roundtrip-same-tracestate")
+	for _, k := range []string{"a", "b", "c"} {
+		v := got.TraceState().Get(k)
+		vndAssert(len(v) == 250, "roundtrip-same-tracestate")
+		if len(v) == 250 {
+			vndAssert(v == string(long), "roundtrip-same-tracestate")
+		}
+	}
+}
